@@ -194,7 +194,9 @@ def check_2d(ctx, s1, p1, s2, p2, rng, stats):
     try:
         pt = np.array([[S.eval(float(a_), float(b_)) for b_ in g2] for a_ in g1])
         gr = np.array(S.eval(g1.copy(), g2.copy()))
-        for form, got in (("point by point", pt), ("tensor grid", gr)):
+        ev = np.full((len(g1), len(g2)), 7.25)          # a caller-provided output array with stale contents
+        S.eval_vector(g1.copy(), g2.copy(), ev)
+        for form, got in (("point by point", pt), ("tensor grid", gr), ("tensor grid into a caller-provided array (eval_vector)", ev)):
             if not np.max(np.abs(got - u)) <= 1e-11 * cond * 100:
                 ctx.violation({"kind": "data-not-reproduced-2d", "periodic": [p1, p2], "form": form},
                               "2-D interpolant evaluated %s at its interpolation points misses its data by %g; spaces %s x %s" % (
